@@ -178,8 +178,29 @@ class ModelFS:
         else:
             raise OutsideModel(f"open mode {mode}")
         f = ModelFile(self, p, "a" if kind == "a" else "w")
+        f._at_open = self.files.get(p)
         self.open_writers.append(f)
         return f
+
+    def collect_unclosed(self):
+        """What CPython does with a file object that is dropped without close(): it is closed by the garbage collector
+        and an error raised there is swallowed.  Small files live in the object's buffer until then, so a failing
+        deferred close loses everything that writer wrote.  Returns the (path, exception) pairs of swallowed failures."""
+        swallowed = []
+        for f in list(self.open_writers):
+            if f.closed:
+                continue
+            try:
+                f.close()
+            except OSError as exc:
+                swallowed.append((f.path, exc))
+                start = getattr(f, "_at_open", None)
+                if start is None:
+                    self.files.pop(f.path, None)
+                else:
+                    self.files[f.path] = start
+        self.open_writers = []
+        return swallowed
 
     def crash_cleanup(self, ctx):
         """After a Crash: what an open writer had handed to the OS may be only partially on disk:
@@ -492,7 +513,50 @@ class Env:
 
         def gz_open(p, mode="rb", compresslevel=9, **kw):
             return GzipModelFile(fs, p, mode, compresslevel)
-        self.gzip = types.SimpleNamespace(open=gz_open, BadGzipFile=real_gzip.BadGzipFile)
+
+        class GzipFile:
+            """gzip.GzipFile over an already opened model file (fileobj=...): the stream is written into that file
+            object; closing the GzipFile finishes the stream but - like the real class - leaves fileobj open."""
+            def __init__(self, filename=None, mode=None, compresslevel=9, fileobj=None, mtime=None):
+                if fileobj is None:
+                    self._own = GzipModelFile(fs, filename, mode or "rb", compresslevel)
+                    self._fo = None
+                else:
+                    if not isinstance(fileobj, ModelFile) or (mode or "wb").replace("b", "") not in ("w", "x", "a"):
+                        raise OutsideModel("gzip.GzipFile over this kind of file object / mode")
+                    self._own, self._fo, self._buf = None, fileobj, SBytes()
+                    fs.files[fileobj.path] = GzBlob(SBytes(), complete=False)
+                self.closed = False
+
+            def __enter__(self):
+                return self
+
+            def __exit__(self, *a):
+                self.close()
+                return False
+
+            def write(self, b):
+                if self._own is not None:
+                    return self._own.write(b)
+                fs._tick("write", self._fo.path)
+                self._buf = self._buf + (b if isinstance(b, SBytes) else SBytes(b))
+                fs.files[self._fo.path] = GzBlob(self._buf, complete=False)
+                return len(b)
+
+            def read(self, n=-1):
+                if self._own is None:
+                    raise OutsideModel("read from a GzipFile over a file object")
+                return self._own.read(n)
+
+            def close(self):
+                if self.closed:
+                    return
+                self.closed = True
+                if self._own is not None:
+                    return self._own.close()
+                fs._tick("write", self._fo.path)          # the trailer goes into fileobj (still open afterwards)
+                fs.files[self._fo.path] = GzBlob(self._buf, complete=True)
+        self.gzip = types.SimpleNamespace(open=gz_open, BadGzipFile=real_gzip.BadGzipFile, GzipFile=GzipFile)
 
         self.zlib = types.SimpleNamespace(compress=z_compress, decompress=z_decompress, error=real_zlib.error)
 
